@@ -15,39 +15,50 @@ struct Transcript {
 
 struct ChunkRef { int rg; int col; const Col* c; const Chunk* want; std::vector<size_t> pages; };   // pages: entries per data page (may be empty if unknown)
 
-static inline int64_t pick_k(const ChunkRef& cr, int64_t pos, int64_t remaining) {
+// a pre-drawn history: all choices are made before execution so that the same history can be replayed on
+// several transports of one image without touching the tape again
+struct Op { uint8_t kind; uint8_t kcode; uint32_t r1; bool with_def, with_rep; };
+static inline std::vector<Op> gen_ops(int max_ops) {
+    std::vector<Op> ops;
+    int n = (int)sim::draw((uint32_t)max_ops + 1);
+    for (int i = 0; i < n; i++) { Op o; o.kind = (uint8_t)sim::draw(12); o.kcode = (uint8_t)sim::draw(10); o.r1 = sim::draw(1u << 20); o.with_def = sim::draw(4) != 3; o.with_rep = sim::draw(2) == 1; ops.push_back(o); }
+    Op fin; fin.kind = 0; fin.kcode = 1; fin.r1 = 0; fin.with_def = true; fin.with_rep = true;     // always finish by reading the rest
+    ops.push_back(fin); ops.push_back(fin);
+    return ops;
+}
+
+static inline int64_t pick_k(const ChunkRef& cr, const Op& op, int64_t pos, int64_t remaining) {
     // sizes around page boundaries and the end of the chunk
     int64_t page_left = -1; { int64_t at = 0; for (auto pe : cr.pages) { if (pos < at + (int64_t)pe) { page_left = at + (int64_t)pe - pos; break; } at += (int64_t)pe; } }
-    switch (sim::draw(10)) {
+    switch (op.kcode) {
         case 0: return 1;
         case 1: return remaining;
-        case 2: return remaining + 1 + sim::draw(5);
+        case 2: return remaining + 1 + op.r1 % 5;
         case 3: return 0;
         case 4: return page_left > 0 ? page_left : 1;
         case 5: return page_left > 1 ? page_left - 1 : 1;
         case 6: return page_left > 0 ? page_left + 1 : 2;
-        case 7: return 1 + sim::draw(8);
-        case 8: return 1 + sim::draw((uint32_t)std::max<int64_t>(remaining, 1));
-        default: return 2 + sim::draw(64);
+        case 7: return 1 + op.r1 % 8;
+        case 8: return 1 + op.r1 % (uint32_t)std::max<int64_t>(remaining, 1);
+        default: return 2 + op.r1 % 64;
     }
 }
 
-// Executes a seeded history of column-reader calls on one chunk and checks every result against the cursor model.
-static inline void run_column_history(carquet_reader_t* r, const ChunkRef& cr, int max_ops, const char* where, Transcript* tr) {
+// Executes a history of column-reader calls on one chunk and checks every result against the cursor model.
+static inline void run_column_history(carquet_reader_t* r, const ChunkRef& cr, const std::vector<Op>& ops, const char* where, Transcript* tr) {
     const Col& c = *cr.c; const Chunk& want = *cr.want;
     carquet_error_t err = CARQUET_ERROR_INIT;
     carquet_column_reader_t* col = cq::reader_get_column(r, cr.rg, cr.col, &err);
     SIM_CHECK(col != nullptr, "read.get_column_failed", "%s rg%d col%d: get_column failed on a valid file (%d %s)", where, cr.rg, cr.col, (int)err.code, err.message);
     int64_t total = (int64_t)want.entries(), pos = 0; size_t vpos = 0;
     size_t w = exec::slot_width(c.type, c.tlen);
-    for (int op = 0; op < max_ops; op++) {
+    for (const Op& op : ops) {
         int64_t remaining = total - pos;
-        uint32_t kind = sim::draw(12);
-        if (kind == 0 && remaining == 0) break;          // simplest: stop at the end
+        uint32_t kind = op.kind;
         if (kind <= 7) {                                  // read_batch
-            int64_t k = kind == 0 ? remaining : pick_k(cr, pos, remaining);
-            bool with_def = c.max_def == 0 ? sim::draw(2) : sim::draw(4) != 3;
-            bool with_rep = sim::draw(2) == 1 || c.max_rep > 0;
+            int64_t k = kind == 0 ? remaining : pick_k(cr, op, pos, remaining);
+            bool with_def = op.with_def;
+            bool with_rep = op.with_rep || c.max_rep > 0;
             exec::Buf vals(w * (size_t)k), defs(2 * (size_t)k, 0x7E), reps(2 * (size_t)k, 0x7E);
             int64_t n = cq::column_read_batch(col, vals.get(), k, with_def ? (int16_t*)defs.get() : nullptr, with_rep ? (int16_t*)reps.get() : nullptr);
             if (tr) { tr->add((uint64_t)k); tr->add((uint64_t)n); }
@@ -69,9 +80,10 @@ static inline void run_column_history(carquet_reader_t* r, const ChunkRef& cr, i
                 if (tr) tr->bytes(got[i].data(), got[i].size());
             }
             if (n > 1 && cr.pages.size() > 1) SIM_COUNT("probe.read_history_multi_row_call");
+            if (n > 0 && n < total && c.max_def > 0) SIM_COUNT("probe.partial_nullable_read");
             pos += n; vpos += nn;
         } else if (kind <= 9) {                           // skip
-            int64_t k = pick_k(cr, pos, remaining);
+            int64_t k = pick_k(cr, op, pos, remaining);
             int64_t n = cq::column_skip(col, k);
             if (tr) { tr->add(0x5111); tr->add((uint64_t)n); }
             SIM_CHECK(n == std::min(k, remaining), "cursor.skip_count", "%s rg%d col%d (%s): skip(%lld) at row %lld of %lld returned %lld", where, cr.rg, cr.col, type_name(c.type), (long long)k, (long long)pos, (long long)total, (long long)n);
